@@ -67,6 +67,51 @@ def py2_dunders(chk, repo, rule='SWEEP.py2'):
                                                 else 'ABSENT'))
 
 
+PY2_ONLY_API = {('sys', 'exc_traceback'), ('sys', 'exc_type'),
+                ('sys', 'exc_value'), ('sys', 'maxint'),
+                ('string', 'letters'), ('string', 'maketrans'),
+                ('os', 'getcwdu'), ('itertools', 'izip'),
+                ('itertools', 'imap'), ('itertools', 'ifilter')}
+PY2_ONLY_NAMES = {'unicode', 'basestring', 'xrange', 'raw_input', 'unichr',
+                  'reduce', 'long', 'cmp', 'execfile', 'file'}
+
+
+def py2_api(chk, repo, rule='SWEEP.py2api'):
+    """Names that exist only in Python 2 (`from sys import exc_traceback`
+    raises ImportError when the line runs, typically inside an error
+    path).  Information only."""
+    for m in repo.all_mods():
+        bound = set()
+        for node in ast.walk(m.tree):
+            if isinstance(node, ast.Name) and isinstance(node.ctx,
+                                                         ast.Store):
+                bound.add(node.id)
+            elif isinstance(node, (ast.FunctionDef, ast.ClassDef)):
+                bound.add(node.name)
+            elif isinstance(node, ast.arg):
+                bound.add(node.arg)
+            elif isinstance(node, (ast.Import, ast.ImportFrom)):
+                for a in node.names:
+                    bound.add((a.asname or a.name).split('.')[0])
+        for node in ast.walk(m.tree):
+            if isinstance(node, ast.ImportFrom):
+                for a in node.names:
+                    if (node.module, a.name) in PY2_ONLY_API:
+                        chk.info('%s:%d `from %s import %s` is Python 2 only '
+                                 '(ImportError when reached)' % (
+                                     m.rel, node.lineno, node.module, a.name))
+            elif isinstance(node, ast.Attribute) and isinstance(
+                    node.value, ast.Name) and (node.value.id,
+                                               node.attr) in PY2_ONLY_API:
+                chk.info('%s:%d %s.%s is Python 2 only' % (
+                    m.rel, node.lineno, node.value.id, node.attr))
+            elif isinstance(node, ast.Name) and isinstance(
+                    node.ctx, ast.Load) and node.id in PY2_ONLY_NAMES \
+                    and node.id not in bound:
+                chk.info('%s:%d name %s is Python 2 only (NameError when '
+                         'reached)' % (m.rel, node.lineno, node.id))
+
+
 def format_arity(chk, repo, rule='SWEEP.format'):
     """`'...%s...' % (a, b)`: number of conversions equals number of
     operands (a mismatch raises TypeError when the line runs)."""
